@@ -47,7 +47,13 @@ structure Node where
   depth : Nat            -- nesting depth at which its fields are bound
   deriving Repr, Inhabited
 
-inductive Item | leaf (l : Leaf) | node (n : Node)
+/-- a field the bind does not look at under this tag (unexported, no tag, `-`): it must stay as it was -/
+structure Frame where
+  path : List Nat
+  ty : Ty
+  deriving Repr, Inhabited
+
+inductive Item | leaf (l : Leaf) | node (n : Node) | frame (f : Frame)
   deriving Repr, Inhabited
 
 /-- the leaf seen from the struct that embeds (anonymously) the struct it belongs to: same keys -/
@@ -61,31 +67,33 @@ def Leaf.below (i : Nat) (name key : Bytes) (l : Leaf) : Leaf :=
 def Item.under (i : Nat) : Item → Item
   | .leaf l => .leaf (l.under i)
   | .node n => .node n
+  | .frame f => .frame { f with path := i :: f.path }
 
 def Item.below (i : Nat) (name key : Bytes) : Item → Item
   | .leaf l => .leaf (l.below i name key)
   | .node n => .node { names := name :: n.names, depth := n.depth + 1 }
+  | .frame f => .frame { f with path := i :: f.path }
 
 mutual
 /-- unfold field `i`: an embedded struct contributes its fields in place (same keys), a nested
     struct contributes a node and its fields under `<key>.`, anything else is a leaf -/
 def itemsFld (tag : Tag) (i : Nat) (h : FieldHdr) : Ty → List Item
   | .struct fs =>
-    if !h.exported then []
+    if !h.exported then [.frame { path := [i], ty := .struct fs }]
     else if h.anon then (itemsFs tag 0 fs).map (Item.under i)
     else match tagNames (h.tag tag) h.name (tag == .form) with
-      | none => []
+      | none => [.frame { path := [i], ty := .struct fs }]
       | some (p, _) => .node { names := [h.name], depth := 1 } :: (itemsFs tag 0 fs).map (Item.below i h.name p)
   | .ptr (.struct fs) =>
-    if !h.exported then []
+    if !h.exported then [.frame { path := [i], ty := .ptr (.struct fs) }]
     else if h.anon then (itemsFs tag 0 fs).map (Item.under i)
     else match tagNames (h.tag tag) h.name (tag == .form) with
-      | none => []
+      | none => [.frame { path := [i], ty := .ptr (.struct fs) }]
       | some (p, _) => .node { names := [h.name], depth := 1 } :: (itemsFs tag 0 fs).map (Item.below i h.name p)
   | t =>
-    if !h.exported then []
+    if !h.exported then [.frame { path := [i], ty := t }]
     else match tagNames (h.tag tag) h.name (tag == .form) with
-      | none => []
+      | none => [.frame { path := [i], ty := t }]
       | some (p, as) => [.leaf { path := [i], names := [h.name], keys := p :: as, ty := t, dflt := h.dflt, nested := false }]
 def itemsFs (tag : Tag) : Nat → List Fld → List Item
   | _, [] => []
@@ -100,6 +108,9 @@ def leavesOf (tag : Tag) (fs : List Fld) : List Leaf :=
 
 def nodesOf (tag : Tag) (fs : List Fld) : List Node :=
   (items tag fs).filterMap fun | .node n => some n | _ => none
+
+def framesOf (tag : Tag) (fs : List Fld) : List Frame :=
+  (items tag fs).filterMap fun | .frame f => some f | _ => none
 
 /-! ### what the source says about a key -/
 
@@ -366,6 +377,15 @@ def holds (init v : Val) (l : Leaf) (e : Option Val) : Bool :=
     | some c, none => normLeaf c == normLeaf (zero l.ty)
     | none, some _ => false
 
+/-- a field outside the bind is as it was (a field that did not exist — below a nil pointer that
+    was allocated for a sibling — is the zero value of its type) -/
+def holdsFrame (init v : Val) (f : Frame) : Bool :=
+  match valAt v f.path, valAt init f.path with
+  | some c, some w => c == w
+  | none, none => true
+  | some c, none => c == zero f.ty
+  | none, some _ => false
+
 def wrapErr : List Bytes → Err → Err
   | [], e => e
   | n :: r, e => .bind n (wrapErr r e)
@@ -394,8 +414,9 @@ def specOK (P : Params) (cfg : Cfg) (tag : Tag) (fs : List Fld) (init : Val) (s 
   | .err e => (causes P cfg tag fs init s).contains e
   | .ok v =>
     !mustFail P cfg tag fs init s &&
-    (leavesOf tag fs).all fun l =>
-      ambiguous s l || (expect P cfg s init l).oks.any (holds init v l)
+    ((leavesOf tag fs).all fun l =>
+      ambiguous s l || (expect P cfg s init l).oks.any (holds init v l)) &&
+    (framesOf tag fs).all (holdsFrame init v)
 
 
 /-! ### several sources (Bind / BindTo, app.Context.Bind)
